@@ -116,6 +116,8 @@ Ltac linvA HA :=
   | |- LInvA (lset_donec ?s _) => apply (LInvA_same s); [reflexivity|reflexivity|linvA HA]
   | |- LInvA (lset_closing ?s _) => apply (LInvA_same s); [reflexivity|reflexivity|linvA HA]
   | |- LInvA (lset_phase ?s _) => apply (LInvA_same s); [reflexivity|reflexivity|linvA HA]
+  | |- LInvA (lset_todo ?s _) => apply (LInvA_same s); [reflexivity|reflexivity|linvA HA]
+  | |- LInvA (lset_hot ?s _) => apply (LInvA_same s); [reflexivity|reflexivity|linvA HA]
   | _ => exact HA
   end.
 
@@ -143,10 +145,10 @@ Definition fresh_of (x : nat * (bool * nat)) : nat := snd (snd x).
 Definition M1 s := forall c, (c < length (lconns s))%nat ->
   l_closed (lget s c) = true \/ In c (active s) \/ In c (ltrash s) \/ In c (map fresh_of (appending s)) \/ In c (map fst (closing s)).
 Definition M2 s := (forall c, In c (active s) -> (c < length (lconns s))%nat) /\ (forall c, In c (ltrash s) -> (c < length (lconns s))%nat) /\
-  (forall c, In c (map fresh_of (appending s)) -> (c < length (lconns s))%nat).
+  (forall c, In c (map fresh_of (appending s)) -> (c < length (lconns s))%nat) /\ (forall c, In c (sd_todo s) -> (c < length (lconns s))%nat).
 Definition M3 s := (lshut s = false -> lphase s = 0) /\ (lphase s = 0 \/ lphase s = 1 \/ lphase s = 2 \/ lphase s = 3) /\
-  (lphase s <> 0 -> lshut s = true) /\ (2 <= lphase s -> forall c, In c (active s) -> l_closed (lget s c) = true) /\
-  (lphase s = 3 -> forall c, In c (ltrash s) -> l_closed (lget s c) = true).
+  (lphase s <> 0 -> lshut s = true) /\ (2 <= lphase s -> forall c, In c (active s) -> l_closed (lget s c) = true \/ In c (sd_todo s)) /\
+  (lphase s = 3 -> sd_todo s = [] /\ forall c, In c (ltrash s) -> l_closed (lget s c) = true).
 Definition LInvB s := M1 s /\ M2 s /\ M3 s.
 
 Lemma lget_app s s' c : lconns s' = lconns s ++ [new_lconn] -> lget s' c = lget s c.
@@ -184,7 +186,11 @@ Lemma lget_lset_closing s v c : lget (lset_closing s v) c = lget s c.
 Proof. reflexivity. Qed.
 Lemma lget_lset_phase s v c : lget (lset_phase s v) c = lget s c.
 Proof. reflexivity. Qed.
-Ltac lgs := rewrite ?lget_lset_active, ?lget_lset_trash, ?lget_lset_open, ?lget_lset_sched, ?lget_lset_shut, ?lget_lset_queue, ?lget_lset_adding, ?lget_lset_appending, ?lget_lset_tid, ?lget_lset_donec, ?lget_lset_closing, ?lget_lset_phase.
+Lemma lget_lset_todo s v c : lget (lset_todo s v) c = lget s c.
+Proof. reflexivity. Qed.
+Lemma lget_lset_hot s v c : lget (lset_hot s v) c = lget s c.
+Proof. reflexivity. Qed.
+Ltac lgs := rewrite ?lget_lset_todo, ?lget_lset_hot, ?lget_lset_active, ?lget_lset_trash, ?lget_lset_open, ?lget_lset_sched, ?lget_lset_shut, ?lget_lset_queue, ?lget_lset_adding, ?lget_lset_appending, ?lget_lset_tid, ?lget_lset_donec, ?lget_lset_closing, ?lget_lset_phase.
 Ltac lgn := repeat (progress (lgs; rewrite ?lget_lupd)).
 
 (* closed flags only ever go up *)
@@ -240,7 +246,7 @@ Ltac lnorm := repeat (progress (rewrite ?length_upd, ?app_length, ?lclose_all_le
 
 Lemma M2_step s o : LInvB s -> M2 (fst (lstep s o)).
 Proof.
-  intros (H1&(Ha&Ht&Hp)&H3). unfold M2.
+  intros (H1&(Ha&Ht&Hp&Hd)&H3). unfold M2.
   destruct o; simpl; lsplit_step; simpl; repeat split; intros; lnorm;
     repeat match goal with |- context [if ?b then _ else _] => destruct b; simpl in * end; lnorm;
     try solve [eauto | intuition eauto];
@@ -255,36 +261,64 @@ Proof.
                   | H : find_tid _ (appending _) = Some (_, _) |- _ => apply find_tid_fresh in H
                   | H : _ \/ _ |- _ => destruct H
                   end; subst; eauto; try tauto].
-  lbool_hyps. destruct H as [->|H]; auto.
+  all: try solve [match goal with H : In _ (sd_todo _) |- _ => apply Hd in H; lia end].
+  all: try solve [lbool_hyps; match goal with H : _ = _ \/ In _ _ |- _ => destruct H as [->|H]; auto end].
+  all: try solve [match goal with Hq : sd_todo _ = _ :: _ |- _ => apply Hd; rewrite Hq; simpl; tauto end].
+  all: try solve [match goal with Hq : sd_todo _ = [], H : In _ (sd_todo _) |- _ => rewrite Hq in H; destruct H end].
 Qed.
+
+Lemma closed_lupd_same0 s c : (c < length (lconns s))%nat -> l_closed (lget (lupd s c j_close) c) = true.
+Proof. intros H. rewrite lget_lupd, Nat.eqb_refl. apply lvalid_lt in H. rewrite H. reflexivity. Qed.
+
+Ltac sdnext P4 P5 Hd Hmono :=
+  first
+  [ solve [ repeat split; auto; intros; try (exfalso; lia);
+            match goal with Hx : In ?c (active _), Hy : 2 <= _ |- _ => destruct (P4 Hy c Hx) as [?|[]]; left; repeat (progress lgs); assumption end ]
+  | solve [ repeat split; auto; intros; try lia;
+            match goal with Hx : In ?c (active _), Hy : 2 <= _ |- l_closed (lget (lupd _ ?n _) _) = true \/ _ =>
+              destruct (Nat.eq_dec c n) as [->|N];
+              [ left; repeat (progress lgs); apply closed_lupd_same0; simpl; apply Hd; left; reflexivity
+              | destruct (P4 Hy c Hx) as [?|Hin]; [left; apply Hmono; assumption|];
+                destruct Hin as [?|?]; [congruence|right; assumption] ] end ] ].
 
 Lemma M3_step s o : LInvB s -> M3 (fst (lstep s o)).
 Proof.
-  intros (H1&(Ha&Ht&Hp)&(P1&P2&P3&P4&P5)). unfold M3.
+  intros (H1&(Ha&Ht&Hp&Hd)&(P1&P2&P3&P4&P5)). unfold M3.
   assert (Hmono := closed_mono s o).
   destruct o; simpl in *; lsplit_step; simpl in *; lbool_hyps;
-    try (repeat split; auto; intros; lnorm; try lia; try congruence;
-         match goal with |- l_closed _ = true => apply Hmono; first [apply P4 | apply P5]; solve [auto | lia | tauto] end; fail).
-  - (* LReturnTrash *)
-    repeat split; auto; intros; apply Hmono;
-      try match goal with Hx : In _ (del _ _) |- _ => apply In_del in Hx; destruct Hx end; auto.
+    try solve [ repeat split; auto; intros; lnorm; try lia; try congruence;
+                repeat match goal with
+                | Hx : _ /\ In _ _ |- _ => destruct Hx
+                | Hx : In _ (del _ _) |- _ => apply In_del in Hx; destruct Hx
+                end;
+                first [ apply P5; assumption
+                      | apply Hmono, P5; assumption
+                      | match goal with Hx : In ?c (active _), Hy : 2 <= _ |- _ =>
+                          destruct (P4 Hy c Hx) as [?|?]; [left; apply Hmono; assumption|right; assumption] end ] ].
   - (* LTrash, trashing *)
-    repeat split; auto; intros; repeat (progress lgs);
-      try match goal with Hx : In _ (del _ _) |- _ => apply In_del in Hx; destruct Hx end; auto.
-    match goal with Hx : In _ (ins _ _) |- _ => apply In_ins in Hx; destruct Hx as [->|Hx] end; [apply P4; [lia|assumption]|auto].
-  - (* LShutdownConns *)
+    repeat split; auto; intros; repeat (progress lgs).
+    + match goal with Hx : In _ (del _ _) |- _ => apply In_del in Hx; destruct Hx end. auto.
+    + apply P5; assumption.
+    + match goal with Hx : In _ (ins _ _) |- _ => apply In_ins in Hx; destruct Hx as [->|Hx] end; [|apply P5; assumption].
+      destruct (P5 ltac:(assumption)) as [Hn _]. destruct (P4 ltac:(lia) c ltac:(assumption)) as [?|Hin]; [assumption|].
+      rewrite Hn in Hin. destruct Hin.
+  - (* LShutdownSnap *)
     assert (lshut s = true) by (apply P3; lia).
-    repeat split; auto; try congruence; try lia; intros.
-    destruct (lget_close_all s (lset_conns (lset_open (lset_phase s 2) (open_count s - Z.of_nat (length (active s)))) (lclose_all (active s) (lconns s))) (active s) c eq_refl) as [_ Hc].
-    apply Hc; [assumption|apply Ha; assumption].
+    repeat split; auto; try congruence; try lia.
+  - sdnext P4 P5 Hd Hmono.
+  - sdnext P4 P5 Hd Hmono.
+  - sdnext P4 P5 Hd Hmono.
+  - sdnext P4 P5 Hd Hmono.
   - (* LShutdownTrash *)
     assert (lshut s = true) by (apply P3; lia).
     repeat split; auto; try congruence; try lia; intros.
-    + destruct (lget_close_all s (lset_conns (lset_phase s 3) (lclose_all (ltrash s) (lconns s))) (ltrash s) c eq_refl) as [(_&_&_&_&_&Hc) _].
-      apply Hc, P4; [lia|assumption].
-    + destruct (lget_close_all s (lset_conns (lset_phase s 3) (lclose_all (ltrash s) (lconns s))) (ltrash s) c eq_refl) as [_ Hc].
-      apply Hc; [assumption|apply Ht; assumption].
+    + match goal with Hx : In ?c (active _) |- _ => destruct (P4 ltac:(lia) c Hx) as [?|?]; [left; apply Hmono; assumption|right; assumption] end.
+    + destruct (sd_todo s); [reflexivity|discriminate].
+    + match goal with Hx : In ?c (ltrash _) |- _ =>
+        destruct (lget_close_all s (lset_conns (lset_phase s 3) (lclose_all (ltrash s) (lconns s))) (ltrash s) c eq_refl) as [_ Hc];
+        apply Hc; [assumption|apply Ht; assumption] end.
 Qed.
+
 
 Lemma closed_lupd_same s c : (c < length (lconns s))%nat -> l_closed (lget (lupd s c j_close) c) = true.
 Proof. intros H. rewrite lget_lupd, Nat.eqb_refl. apply lvalid_lt in H. rewrite H. reflexivity. Qed.
@@ -293,7 +327,7 @@ Ltac m1 H1 c := destruct (H1 c) as [?|[?|[?|[?|?]]]]; [try lia; assumption | ..]
 
 Lemma M1_step s o : LInvB s -> M1 (fst (lstep s o)).
 Proof.
-  intros (H1&(Ha&Ht&Hp)&H3). unfold M1.
+  intros (H1&(Ha&Ht&Hp&Hd)&H3). unfold M1.
   assert (Hmono := closed_mono s o).
   destruct o; simpl in *; lsplit_step; simpl in *; intros; lnorm;
     try solve [m1 H1 c; auto 6 using Hmono];
@@ -386,8 +420,12 @@ Proof.
   destruct (In_nth _ _ new_lconn Hk) as (c&Hlt&Hnth).
   destruct (M c Hlt) as [H|[H|[H|[H|H]]]].
   - unfold lget in H. rewrite Hnth in H. exact H.
-  - specialize (P4 ltac:(lia) c H). unfold lget in P4. rewrite Hnth in P4. exact P4.
-  - specialize (P5 Hp c H). unfold lget in P5. rewrite Hnth in P5. exact P5.
+  - destruct (P5 Hp) as [Hn0 _]. specialize (P4 ltac:(lia) c H). unfold lget in P4. rewrite Hnth, Hn0 in P4. destruct P4 as [P4|[]]. exact P4.
+  - destruct (P5 Hp) as [_ P5']. specialize (P5' c H). unfold lget in P5'. rewrite Hnth in P5'. exact P5'.
   - rewrite Ap in H. destruct H.
   - rewrite Cl in H. destruct H.
 Qed.
+
+(* a borrower parked in _wait_for_conn that resumes in a pool that has been shut down fails, and touches no connection *)
+Lemma woken_after_shutdown s f : lshut s = true -> lexec (lwait_loop (S f) LRet) s = (s, LErrShutdown).
+Proof. intros H. simpl. rewrite H. reflexivity. Qed.
